@@ -295,6 +295,8 @@ type c20World struct {
 	fc     *layers.FC
 	bce    *losses.BCE
 	ce     *losses.CE
+	// one activation object of each kind, shared by all goroutines like the layer
+	acts map[string]func(x tensor.Tensor) (tensor.Tensor, error)
 }
 
 func buildWorld(c C20Case) (*c20World, error) {
@@ -329,6 +331,14 @@ func buildWorld(c C20Case) (*c20World, error) {
 	*ws[1].Value = lib.MustNew([]int{c.O}, c.B, true)
 	w.fc = fc
 	w.bce, w.ce = losses.NewBCE(), losses.NewCE()
+	w.acts = map[string]func(x tensor.Tensor) (tensor.Tensor, error){}
+	for _, k := range []string{"relu", "leaky", "sigmoid", "tanh"} {
+		fw, err := (ActCase{Kind: k, NilConf: true}).layer1()
+		if err != nil {
+			return nil, err
+		}
+		w.acts[k] = fw
+	}
 	return w, nil
 }
 
@@ -396,7 +406,11 @@ func runG(c C20Case, w *c20World, gp GProg) (res gResult) {
 				return
 			}
 			rnd = random[st.X]
-			y, err = ActCase{Kind: st.Act, NilConf: true}.forward(x)
+			if fw, ok := w.acts[st.Act]; ok {
+				y, err = fw(x) // the world's shared activation object
+			} else {
+				y, err = ActCase{Kind: st.Act, NilConf: true}.forward(x)
+			}
 		case "loss":
 			x, ok := get(st.X)
 			if !ok {
